@@ -85,10 +85,11 @@ fn spec(prop: &str) -> CheckSpec {
             gates.push(Gate { counter: "resized_1049_excursions_with_cursor_on_a_character", min_quick: 300, min_thorough: 3_000 });
         }
         "C19" => {
-            rule = "Real-vs-fresh: after an arbitrary G1 history (resizes, alternate screen, customised modes/margins/tabs/charsets/pens/saved contexts) and an input that parks the parser in each of the 14 states in turn, ESC c is fed; the terminal is then compared with a freshly built one of the current size and same limit: view, lines, cursor, cursor-key mode, dump() string and every hooked hidden field; then a continuation (one of 3 probe scripts that expose each hidden component, or a random G1 continuation incl. resizes) is fed to both and everything is compared after each call. distinct_nontrivial = distinct (parser state before ESC c, set of non-default hidden components before the reset).";
+            rule = "Real-vs-fresh: after an arbitrary G1 history (resizes, alternate screen, customised modes/margins/tabs/charsets/pens/saved contexts) and an input that parks the parser in each of the 14 states in turn, ESC c is fed; the terminal is then compared with a freshly built one of the current size and same limit: view, lines, cursor, cursor-key mode, dump() string and every hooked hidden field; then a continuation (one of 3 probe scripts that expose each hidden component, or a random G1 continuation incl. resizes) is fed to both and everything is compared after each call. A scenario product resets while the parked primary screen is stale (3 ways of entering the alternate screen x 7 width changes x 7 height changes x 4 amounts of primary scrollback x 5 sizes x one or two resizes). distinct_nontrivial = distinct (parser state before ESC c, set of non-default hidden components before the reset).";
             gates.push(Gate { counter: "resets_checked", min_quick: 20_000, min_thorough: 200_000 });
             gates.push(Gate { counter: "resets_on_alternate_screen", min_quick: 1_000, min_thorough: 10_000 });
             gates.push(Gate { counter: "resets_with_cursor_key_mode_set", min_quick: 300, min_thorough: 3_000 });
+            gates.push(Gate { counter: "resets_with_stale_parked_primary_screen", min_quick: 5_000, min_thorough: 40_000 });
         }
         "C13" => {
             rule = C13_RULE;
